@@ -18,6 +18,13 @@ proof   : Props/C20.v over Lib/Cksum.v (+CksumProofs.v) and Lib/TinyRV0.v (+Tiny
     ProcRTL each deliver the same proc2mngr sequence and       the observed proc2mngr sequence, final data-memory image, every other changed word
     leave the same memory image"                               and the number of unconsumed mngr2proc messages go to Coq, where `run` (the ISA
                                                                model) is evaluated by vm_compute on the words the processors executed and compared.
+xcel    : csrr/csrw on 0x7E0..0x7FF are the accelerator registers.  The ISA document defines them only as transactions with
+          "an accelerator" ("the exact semantics of each register is specific to each accelerator"); the ex03 TestHarness
+          attaches NullXcelRTL, so the Coq model carries that accelerator (one register; modelled from NullXcel.py —
+          C20_xcel_write_then_read, C20_xcel_frame) and Coq judges FL, CL and RTL against ISA-with-NullXcel.  What "agree"
+          means here is therefore FL = CL = RTL = that instantiated model.  Generated: accelerator write .. read ..
+          consumer of the read value at distance 1..3 as rs1 / rs2 / both / addi / store data / either branch operand /
+          csrw proc2mngr / accelerator write / a second read, also inside branch shadows, under default and random timing.
 partial : refinement ProcCL/ProcRTL == TinyRV0.step is NOT proved (a Burch-Dill proof of the 5-stage pipeline is out
           of reach here); it rests on the differential runs.  The python interpreter `GenSim` below is used ONLY by the
           generator (valid addresses, how many messages to wait for, fuel) and to steer shrinking; Coq decides.
@@ -177,6 +184,7 @@ def run_encoding(ctx):
 # =============================================================================================== (b) processors
 # ---- program trees:  ('i', instr) | ('if', rs1, rs2, [nodes]) | ('loop', cnt, n, [nodes])
 # instr: ('add'|'and'|'sll'|'srl', rd, rs1, rs2) ('addi'|'lw', rd, rs1, imm) ('sw', rs2, rs1, imm) ('csrr', rd) ('csrw', rs1) ('nop',)
+#        ('xr', rd, csr) = csrr rd, csr   ('xw', rs1, csr) = csrw csr, rs1   with csr an accelerator register 0x7E0..0x7FF
 def flatten(nodes, out=None, lab=None):
   """-> list of flat items: ('L', name) | instr tuple; branches are ('bne', rs1, rs2, label)"""
   if out is None: out, lab = [], [0]
@@ -213,6 +221,8 @@ def resolve(flat):
       elif op == 'csrr': asm.append(f'  csrr x{it[1]}, mngr2proc')
       elif op == 'csrw': asm.append(f'  csrw proc2mngr, x{it[1]}')
       elif op == 'nop': asm.append('  nop')
+      elif op == 'xr': asm.append(f'  csrr x{it[1]}, {it[2]:#x}')
+      elif op == 'xw': asm.append(f'  csrw {it[2]:#x}, x{it[1]}')
       else: raise ValueError(op)
     addr += 4
   return ins, asm
@@ -225,6 +235,8 @@ def coq_instr(i):
   if op == 'csrr': return f'CSRR {i[1]} CSR_MNGR2PROC'
   if op == 'csrw': return f'CSRW CSR_PROC2MNGR {i[1]}'
   if op == 'nop': return 'nop'
+  if op == 'xr': return f'CSRR {i[1]} {i[2]}'
+  if op == 'xw': return f'CSRW {i[2]} {i[1]}'
   raise ValueError(op)
 
 class GenSimError(Exception): pass
@@ -235,6 +247,7 @@ def gensim(ins, data, inputs, rng=None, limit=20000):
   mem = {DATA + 4 * k: v for k, v in enumerate(data)}
   inputs = list(inputs); nin = 0
   out, pc, dyn = [], TEXT, 0
+  xr0 = 0            # the accelerator register (NullXcel)
   feats = {}
   hist = []          # (rd written or None, is_load, is_csr) of the last instructions
   end = TEXT + 4 * len(ins)
@@ -245,7 +258,7 @@ def gensim(ins, data, inputs, rng=None, limit=20000):
     dyn += 1
     if dyn > limit: raise GenSimError('does not terminate')
     i = ins[(pc - TEXT) // 4]; op = i[0]
-    srcs = {'add': (2, 3), 'and': (2, 3), 'sll': (2, 3), 'srl': (2, 3), 'addi': (2,), 'lw': (2,), 'sw': (1, 2), 'bne': (1, 2), 'csrw': (1,)}.get(op, ())
+    srcs = {'add': (2, 3), 'and': (2, 3), 'sll': (2, 3), 'srl': (2, 3), 'addi': (2,), 'lw': (2,), 'sw': (1, 2), 'bne': (1, 2), 'csrw': (1,), 'xw': (1,)}.get(op, ())
     for d, h in enumerate(reversed(hist[-3:]), 1):
       if h[0] and any(i[k] == h[0] for k in srcs):
         F(f'raw-d{d}')
@@ -253,8 +266,14 @@ def gensim(ins, data, inputs, rng=None, limit=20000):
         if op == 'bne': F(f'branch-operand-raw-d{d}')
         if op == 'sw' and i[1] == h[0]: F(f'store-data-raw-d{d}')
         if op in ('lw', 'sw') and i[2] == h[0]: F(f'address-raw-d{d}' + ('-after-load' if h[1] else ''))
+        if h[3]:                                # consumer of an accelerator read, by operand position
+          for k in srcs:
+            if i[k] == h[0]:
+              pos = ('store-data' if k == 1 else 'address') if op == 'sw' else ('rs1' if k == srcs[0] else 'rs2')
+              F(f'xcel-read-use-{op}-{pos}-d{d}')
         break
-    if hist and hist[-1][2] and op in ('csrr', 'csrw'): F('csr-back-to-back')
+    if hist and hist[-1][2] and op in ('csrr', 'csrw', 'xr', 'xw'): F('csr-back-to-back')
+    if hist and hist[-1][4] and op in ('xr', 'xw'): F(f'xcel-back-to-back-{hist[-1][4]}-{op}')
     npc, wr, isld = pc + 4, None, False
     if op == 'add': wr = (i[1], (R[i[2]] + R[i[3]]) & M32)
     elif op == 'and': wr = (i[1], R[i[2]] & R[i[3]])
@@ -283,10 +302,12 @@ def gensim(ins, data, inputs, rng=None, limit=20000):
       wr = (i[1], inputs[nin]); nin += 1
     elif op == 'csrw': out.append(R[i[1]])
     elif op == 'nop': pass
+    elif op == 'xr': wr = (i[1], xr0)
+    elif op == 'xw': xr0 = R[i[1]]
     else: raise GenSimError(op)
     if wr and wr[0] != 0: R[wr[0]] = wr[1]
     if wr and wr[0] == 0: F('write-x0')
-    hist.append((wr[0] if wr and wr[0] != 0 else None, isld, op in ('csrr', 'csrw')))
+    hist.append((wr[0] if wr and wr[0] != 0 else None, isld, op in ('csrr', 'csrw', 'xr', 'xw'), op == 'xr', op if op in ('xr', 'xw') else None))
     F('op-' + op)
     pc = npc
   return {'out': out, 'win': [mem.get(DATA + 4 * k, 0) for k in range(NDATA)], 'dyn': dyn, 'inputs': inputs[:nin], 'unused_inputs': len(inputs) - nin,
@@ -343,6 +364,44 @@ def gen_tree(rng, size, far=None):
     if not store and seq[-1][1][1] in pool: recent.append(seq[-1][1][1])
     if not store and rng.random() < 0.4: seq.append(('i', ('csrw', seq[-1][1][1])))
     return seq
+  def XC():
+    return 0x7E0 + rng.choice([0, 0, 1, 9, 30, 31, rng.randrange(32)])
+  def filler(shadow, keep):
+    """an instruction that does not overwrite register `keep`"""
+    for _ in range(6):
+      f = simple(shadow)
+      if not (f[1][0] in ('add', 'and', 'sll', 'srl', 'addi', 'lw', 'csrr', 'xr') and f[1][1] == keep): return f
+    return ('i', ('nop',))
+  def xcel(shadow=False):
+    """accelerator traffic: [write] .. read .. consumer of the read value at distance 1..3, in every operand position"""
+    seq, wsrc = [], None
+    if rng.random() < 0.7:
+      wsrc = src()
+      seq.append(('i', ('xw', wsrc, XC())))
+      for _ in range(rng.choice([0, 0, 1, 2])): seq.append(filler(shadow, wsrc))
+    rd = rng.choice(pool) if rng.random() < 0.95 else 0
+    seq.append(('i', ('xr', rd, XC())))
+    if rd: recent.append(rd)
+    for _ in range(rng.choice([0, 0, 0, 1, 2])): seq.append(filler(shadow, rd))
+    other = wsrc if (wsrc is not None and rng.random() < 0.5) else src()
+    kinds = ['rs1', 'rs2', 'rs2', 'both', 'addi', 'store-data', 'store-data', 'csrw', 'xw', 'xr2'] + ([] if shadow else ['bne1', 'bne2', 'bne2'])
+    c = rng.choice(kinds)
+    op = rng.choice(['add', 'add', 'and', 'sll', 'srl'])
+    if c == 'rs1': seq.append(('i', (op, dst(), rd, other)))
+    elif c == 'rs2': seq.append(('i', (op, dst(), other, rd)))
+    elif c == 'both': seq.append(('i', (op, dst(), rd, rd)))
+    elif c == 'addi': seq.append(('i', ('addi', dst(), rd, imm12())))
+    elif c == 'store-data': seq.append(('i', ('sw', rd, BASE, 4 * rng.randrange(0, 40))))
+    elif c == 'csrw': seq.append(('i', ('csrw', rd)))
+    elif c == 'xw': seq.append(('i', ('xw', rd, XC())))
+    elif c == 'xr2': seq.append(('i', ('xr', dst(), XC())))
+    else:
+      body = [simple(shadow=True) for _ in range(rng.randint(1, 3))]
+      seq.append(('if', rd, other, body) if c == 'bne1' else ('if', other, rd, body))
+    if seq[-1][0] == 'i' and seq[-1][1][0] in ('add', 'and', 'sll', 'srl', 'addi', 'xr') and seq[-1][1][1] in pool:
+      recent.append(seq[-1][1][1])
+      if rng.random() < 0.5: seq.append(('i', ('csrw', seq[-1][1][1])))
+    return seq
   def memref(store):
     """(base reg, imm) of a legal aligned address; stores avoid the pointer slots"""
     if rng.random() < 0.5:
@@ -350,8 +409,8 @@ def gen_tree(rng, size, far=None):
     return rng.choice(PTRS), 4 * rng.randint(-16, 8)          # pointer regs hold DATA+64 .. DATA+124
   def simple(shadow=False):
     k = rng.random()
-    w = [0.30, 0.14, 0.14, 0.13, 0.06, 0.08, 0.11, 0.02, 0.02] if not shadow else [0.12, 0.08, 0.12, 0.30, 0.04, 0.10, 0.22, 0.01, 0.01]
-    c = rng.choices(range(9), w)[0]
+    w = [0.30, 0.14, 0.14, 0.13, 0.06, 0.08, 0.11, 0.02, 0.02, 0.03, 0.03] if not shadow else [0.12, 0.08, 0.12, 0.30, 0.04, 0.10, 0.22, 0.01, 0.01, 0.05, 0.07]
+    c = rng.choices(range(11), w)[0]
     if c == 0:
       op = rng.choice(['add', 'add', 'and', 'sll', 'srl'])
       i = (op, dst(), src(), src())
@@ -369,8 +428,10 @@ def gen_tree(rng, size, far=None):
     elif c == 5: i = ('csrr', dst())
     elif c == 6: i = ('csrw', src())
     elif c == 7: i = ('nop',)
+    elif c == 9: i = ('xr', dst(), XC())
+    elif c == 10: i = ('xw', src(), XC())
     else: i = ('add', dst(), src(), 0)
-    if i[0] in ('add', 'and', 'sll', 'srl', 'addi', 'lw', 'csrr') and i[1] in pool: recent.append(i[1])
+    if i[0] in ('add', 'and', 'sll', 'srl', 'addi', 'lw', 'csrr', 'xr') and i[1] in pool: recent.append(i[1])
     return ('i', i)
   def ifnode():
     k = rng.random()
@@ -383,7 +444,9 @@ def gen_tree(rng, size, far=None):
     else: a, b = src(), src()
     body = []
     for _ in range(rng.randint(1, 4)):
-      if rng.random() < 0.2: body += wide(shadow=True)
+      k2 = rng.random()
+      if k2 < 0.2: body += wide(shadow=True)
+      elif k2 < 0.3: body += xcel(shadow=True)
       else: body.append(simple(shadow=True))
     return pre + [('if', a, b, body)]
   def straight(n):
@@ -406,7 +469,8 @@ def gen_tree(rng, size, far=None):
           if seq[-1][1][0] == 'csrr' and seq[-1][1][1] in pool: recent.append(seq[-1][1][1])
         out += seq; n -= len(seq)
       elif k < 0.42: out += wide(); n -= 2                                  # full-range displacement load/store
-      elif k < 0.48:                                                          # pointer chasing: a loaded value is the next address
+      elif k < 0.50: out += xcel(); n -= 3                                  # accelerator write / read / dependent instruction
+      elif k < 0.56:                                                          # pointer chasing: a loaded value is the next address
         p = rng.choice(PTRS)
         seq = [('i', ('lw', p, BASE, 4 * rng.choice(PTR_SLOTS)))]
         for _ in range(rng.choice([0, 0, 1, 2])): seq.append(simple())
@@ -422,6 +486,7 @@ def gen_tree(rng, size, far=None):
   for p in PTRS: prologue.append(('i', ('addi', p, BASE, 64 + 4 * rng.randrange(16))))
   for c in CNTS: prologue.append(('i', ('addi', c, 0, 0)))
   prologue += [('i', ('addi', AHI, BASE, 2047)), ('i', ('addi', AHI, AHI, 1))]
+  prologue.append(('i', ('xw', rng.choice(pool), XC())))                      # the accelerator is written before it is ever read
   body = block(size, 0)
   if far:
     cut = rng.randrange(len(body) + 1)
@@ -620,12 +685,14 @@ def shrink(tree, data, inputs, pname, cfg, budget=150):
     if not obs_matches_ref(o, p): epi, cur = e2, (p, o)
   # prologue initialisations of registers nothing reads any more (never the base pointer)
   def reads(i):
-    return {'add': (2, 3), 'and': (2, 3), 'sll': (2, 3), 'srl': (2, 3), 'addi': (2,), 'lw': (2,), 'sw': (1, 2), 'bne': (1, 2), 'csrw': (1,)}.get(i[0], ())
+    return {'add': (2, 3), 'and': (2, 3), 'sll': (2, 3), 'srl': (2, 3), 'addi': (2,), 'lw': (2,), 'sw': (1, 2), 'bne': (1, 2), 'csrw': (1,), 'xw': (1,)}.get(i[0], ())
   for k in range(len(pro) - 1, 0, -1):
     if spent >= budget + 80: break
     rd = pro[k][1][1]
     rest = [i for i in flatten(pro[:k] + pro[k + 1:] + body + epi) if i[0] != 'L']
-    if any(i[j] == rd for i in rest for j in reads(i)): continue
+    if pro[k][1][0] == 'xw':
+      if any(i[0] == 'xr' for i in rest): continue
+    elif any(i[j] == rd for i in rest for j in reads(i)): continue
     p2 = pro[:k] + pro[k + 1:]
     try:
       p = build((p2, body, epi), data, seed_inputs, rng=__import__('random').Random(1))
@@ -816,7 +883,10 @@ def main(ctx):
     'registers are initialised by the program before use (the ISA document does not define reset values); the model starts them at 0 like all three processors',
     'programs end by running into zero memory (not an instruction: the Coq run stops there); the processors are observed until the expected number of proc2mngr messages '
     'arrived plus a drain window of >= 40 cycles, so extra messages / late stores within that window are seen, later ones are not',
-    'self-modifying code, xcel registers (csr 0x7E0-0x7FF, NullXcel) and the MUL instruction (not in this ISA document) are outside the generated programs',
+    'accelerator registers (csr 0x7E0-0x7FF): the ISA document makes them transactions with an accelerator whose semantics it leaves open; the Coq model is instantiated with '
+    'the NullXcelRTL the ex03 TestHarness attaches (one register: any write stores, any read returns it; modelled from NullXcel.py, not from the ISA document), '
+    'so for these instructions "agree with the ISA" means FL = CL = RTL = ISA-with-NullXcel; programs write the accelerator before the first read',
+    'self-modifying code and the MUL instruction (not in this ISA document) are outside the generated programs',
     'timing configurations use the TestHarness parameters as they are (src_delay and sink_delay are both the initial and the interval delay; stall seeds are fixed by MagicMemoryCL)',
     'checksum CL/RTL units are simulated through TestSrcCL/TestSinkCL with 2 (quick) or 4 (thorough) delay settings; the FL/RTL/spec equality itself is a theorem for all inputs']
   ctx.build_props(extra_models=['theories/Lib/Cksum.vo', 'theories/Lib/TinyRV0.vo'])
